@@ -130,3 +130,33 @@ def type_expr(rng, depth=0):
 def junk_line(rng, n=30):
     alphabet = "abcdefDEFAULTS to:.,()[]{}`'\" \t\n0123456789-_*"
     return "".join(rng.choice(alphabet) for _ in range(rng.randint(0, n)))
+
+
+def lengthen(rng, s, min_len=101, max_len=240):
+    """the one-line prose s made longer than min_len characters by inserting plain words (no spice) before its terminal
+    punctuation; the wording before the insertion point and the terminal are kept"""
+    body = s.rstrip(".,")
+    term = s[len(body):]
+    target = rng.randint(min_len, max_len)
+    out = body
+    while len(out) + len(term) < target:
+        out += (" " if out and not out.endswith(" ") else "") + word(rng)
+    return out + term
+
+
+LONG_TOKEN_KINDS = ["url", "path", "dotted", "snake", "hyphen", "digits"]
+
+
+def long_token(rng, kind=None, min_len=101, max_len=180):
+    """one whitespace-free token longer than min_len characters: a URL, a file-system path, a dotted or underscored
+    identifier, a hyphenated compound, a digit string"""
+    kind = kind or rng.choice(LONG_TOKEN_KINDS)
+    target = rng.randint(min_len, max_len)
+    head, sep, tail = {"url": ("https://storage.example.org/", "/", "/index.json"), "path": ("/opt/", "/", "/weights.h5"),
+                       "dotted": ("pkg.", ".", ".Klass"), "snake": ("very_", "_", "_name"), "hyphen": ("well-", "-", "-known"),
+                       "digits": ("", "", "")}[kind]
+    parts = []
+    while len(head) + len(sep.join(parts)) + len(tail) < target:
+        parts.append("".join(rng.choice("0123456789") for _ in range(8)) if kind == "digits" else
+                     (word(rng) + ("%02d" % rng.randint(0, 99) if rng.random() < 0.3 else "")))
+    return head + sep.join(parts) + tail
